@@ -218,11 +218,25 @@ func (m *Machine) takeWitness() {
 	}
 	if m.usedUF {
 		w.Opaque = len(m.ufPoints) == 0
-		for fn := range m.ufPoints {
-			if realHash(fn, []byte{0}) == nil {
-				w.Opaque = true
-			}
+	}
+	// every uninterpreted function applied in the path condition must have a real implementation in the engine
+	// (hashes, through the refinement above); otherwise its values in the model are arbitrary (curve, scrypt)
+	seen := map[*smt.Term]bool{}
+	var walk func(t *smt.Term)
+	walk = func(t *smt.Term) {
+		if seen[t] {
+			return
 		}
+		seen[t] = true
+		if t.Op == smt.OApp && realHash(t.Name, []byte{0}) == nil {
+			w.Opaque = true
+		}
+		for _, a := range t.Args {
+			walk(a)
+		}
+	}
+	for _, t := range m.pc {
+		walk(t)
 	}
 	w.Values, w.Names = m.modelStrings()
 	if len(w.Values) > 0 && strings.HasPrefix(w.Values[0], "error") {
